@@ -410,8 +410,13 @@ def mutations(doc, tag_names=(), key_names=()):
             for x in (cur + 1.0, cur - 1.0, math.nextafter(cur, math.inf), math.nextafter(cur, -math.inf)):
                 yield 'number%s<-%r' % (list(p), x), set_at(doc, p, x)
         elif isinstance(cur, str):
-            for x in (cur + 'z', cur[:-1], cur + '\n', ' ' + cur, cur.upper(), 'é' + cur):
-                if x != cur:
+            near = [cur + 'z', cur[:-1], cur + '\n', ' ' + cur, cur.upper(), 'é' + cur, cur.lower(), cur + cur[-1:], cur[:-1] + '.5' + cur[-1:], cur.replace('T', ' '),
+                    cur.replace('-', '').replace(':', ''), cur[:10] + cur[-1:], cur[:16] + cur[-1:], cur[:-1] + '+00:00' + cur[-1:], cur[:-1] + '+05:00' + cur[-1:],
+                    cur[:-1], cur.rstrip('=') , cur + '=', cur[1:]]
+            seen_near = set()
+            for x in near:
+                if x != cur and x not in seen_near:
+                    seen_near.add(x)
                     yield 'string%s<-%r' % (list(p), x), set_at(doc, p, x)
             if tag_names and p and p[-1] == '.tag':
                 for tname in tag_names:
